@@ -48,6 +48,7 @@ func runCheck(_ context.Context, args []string) error {
 	}
 
 	for _, step := range steps {
+		verifNote("Step", step.name)
 		if err := step.fn(); err != nil {
 			log.Fatalf("%s: %v", step.name, err)
 		}
@@ -101,6 +102,7 @@ type program struct {
 
 func (p *program) exit() error {
 	if p.foundIssues {
+		verifGate("Exit", p.exitCode)
 		os.Exit(p.exitCode)
 	}
 	return nil
@@ -123,9 +125,11 @@ func (p *program) checkPackage(pkg *packages.Package) {
 	for _, f := range pkg.Syntax {
 		filename := p.getFilename(f)
 		if !p.checkTests && strings.HasSuffix(filename, "_test.go") {
+			verifNote("SkipTest", filename)
 			continue
 		}
 		if !p.checkGenerated && p.isGenerated(f) {
+			verifNote("SkipGenerated", filename)
 			continue
 		}
 		p.ctx.SetFileInfo(filename, f)
@@ -147,10 +151,14 @@ func (p *program) checkFile(f *ast.File) {
 		// All checkers are expected to use *lint.Context
 		// as read-only structure, so no copying is required.
 		sema <- struct{}{}
+		verifGate("Acquire", i)
 
 		go func() {
+			verifGate("GStart", i)
 			defer func() {
+				verifGate("WgDone", i)
 				wg.Done()
+				verifGate("Release", i)
 				<-sema
 
 				// Checker signals unexpected error with panic(error).
@@ -168,9 +176,11 @@ func (p *program) checkFile(f *ast.File) {
 			}()
 
 			warnings[i] = append(warnings[i], c.Check(f)...)
+			verifGate("SlotWrite", i)
 		}()
 	}
 	wg.Wait()
+	verifGate("Barrier", len(p.checkers))
 
 	for i, c := range p.checkers {
 		for _, warn := range warnings[i] {
@@ -180,6 +190,7 @@ func (p *program) checkFile(f *ast.File) {
 				loc = p.shortenLocation(loc)
 			}
 			log.Printf("%s: %s: %s\n", loc, c.Info.Name, warn.Text)
+			verifGate("Print", i)
 		}
 	}
 }
